@@ -41,6 +41,7 @@ var c01ExemptCases = map[string]string{
 func checkC01(c *Ctx) {
 	c01ScalarMerge(c)
 	c01TopIsNeutral(c)
+	c01PendingLookupRetries(c)
 	nCases := 0
 	for _, fn := range []string{"(*nodeContext).scheduleConjunct", "(*nodeContext).insertValueConjunct"} {
 		f := c.fn(adtP, fn)
@@ -418,4 +419,71 @@ func c01TopIsNeutral(c *Ctx) {
 	sort.Strings(bad)
 	c.check(rule, f.Name+"/case *Top", arm.Pos(), len(bad) == 0 && len(got) > 0,
 		"the `*Top` arm of insertValueConjunct may change no node state other than hasTop and the typo checker's conjunctInfo: `x & _` must leave exactly the state `x` leaves; also written: "+strings.Join(bad, ", "))
+}
+
+// c01PendingLookupRetries: in attemptOnly mode (*Vertex).lookup may hand back
+// an arc that is still pending, because its container has work in flight that
+// may yet produce the field. The caller sees "no value, no error"; what makes
+// it come back later is c.lookupPendingParent, which processResolver turns
+// into a retry of the task. A pending-arc return that does not set the flag
+// lets the task finish successfully with nothing inserted: the conjunct is
+// silently dropped, and whether that happens depends on which declaration the
+// scheduler reaches first. Every return of the pending arc in attemptOnly mode
+// must therefore set the flag first (the `ignore` mode return is the
+// documented optimistic exception).
+func c01PendingLookupRetries(c *Ctx) {
+	const rule = "lookup.pending-return-requests-retry"
+	f := c.fn(adtP, "(*Vertex).lookup")
+	info := f.Info()
+	var pend *ast.IfStmt
+	ast.Inspect(f.Body, func(x ast.Node) bool {
+		is, ok := x.(*ast.IfStmt)
+		if ok && pend == nil && strings.Contains(exprString(is.Cond), "ArcType == ArcPending") {
+			pend = is
+		}
+		return true
+	})
+	if pend == nil {
+		c.broken("anchor: (*Vertex).lookup no longer tests arc.ArcType == ArcPending")
+	}
+	n := 0
+	var visit func(list []ast.Stmt, guards []string)
+	visit = func(list []ast.Stmt, guards []string) {
+		flagSet := false
+		for _, st := range list {
+			switch s := st.(type) {
+			case *ast.AssignStmt:
+				if len(s.Lhs) == 1 && strings.HasSuffix(exprString(s.Lhs[0]), ".lookupPendingParent") && exprString(s.Rhs[0]) == "true" {
+					flagSet = true
+				}
+			case *ast.ReturnStmt:
+				ignoreMode := false
+				for _, gd := range guards {
+					if strings.Contains(gd, "runMode == ignore") {
+						ignoreMode = true
+					}
+				}
+				if ignoreMode {
+					continue
+				}
+				n++
+				guard := "unconditional"
+				if len(guards) > 0 {
+					guard = guards[len(guards)-1]
+				}
+				c.check(rule, f.Name+"/return["+guard+"]", s.Pos(), flagSet,
+					"in attemptOnly mode the pending arc is returned without setting c.lookupPendingParent: the resolving task is not retried, it completes with nothing inserted and the conjunct is lost (which returns are reached depends on the order in which the scheduler meets the declarations)")
+			case *ast.IfStmt:
+				visit(s.Body.List, append(append([]string{}, guards...), exprString(s.Cond)))
+				if blk, ok := s.Else.(*ast.BlockStmt); ok {
+					visit(blk.List, append(append([]string{}, guards...), "!("+exprString(s.Cond)+")"))
+				}
+			case *ast.BlockStmt:
+				visit(s.List, guards)
+			}
+		}
+	}
+	_ = info
+	visit(pend.Body.List, nil)
+	c.expect(rule, 3)
 }
